@@ -63,3 +63,22 @@ Example C07_dataclass_example :
   exists exp ch, ce P (VDict [(VStr "a", VStr "x"); (VStr "zz", VInt 1)]) =
                  CTree (EProduct exp ch (VDict [(VStr "a", VStr "x"); (VStr "zz", VInt 1)]) ["c"] [VStr "zz"]) /\ List.length ch = 1%nat.
 Proof. vm_compute. eexists. eexists. split; reflexivity. Qed.
+
+(* dataclasses, sequence layout: the positions of the INPUT are paired with the fields the constructor binds, in declaration
+   order (a field with init=False takes no position); a position is a child exactly when the field's type rejects the
+   element on its own, and the child is the tree that conversion alone reports; no missing, no extra *)
+Theorem C07_dataclass_positional_children : forall h fs v exp ch act mi ex,
+  pane_seq_gate_collect (kind_of v) = true ->
+  ce (TClass h fs) v = CTree (EProduct exp ch act mi ex) ->
+  ch = pos_children_spec 0 (positional_types fs) (items_of v) /\ ch <> [] /\ act = v /\ mi = [] /\ ex = [].
+Proof. exact class_positional_children. Qed.
+Print Assumptions C07_dataclass_positional_children.
+(* non-vacuity: Q(note: str = field(init=False, default='n'), x: int, y: int) read from [1, 'two']: the only child is position 1 *)
+Example C07_positional_example :
+  let Q := TClass (mkCls "Q" [FStruct; FTuple] false false HNone)
+             [(mkFld "note" ["note"] "note" false false false (DValue (VStr "n")), TScalar SStr);
+              (mkFld "x" ["x"] "x" true false false DNone, TScalar SInt);
+              (mkFld "y" ["y"] "y" true false false DNone, TScalar SInt)] in
+  pane_seq_gate_collect (kind_of (VList [VInt 1; VStr "two"])) = true /\
+  exists exp e, ce Q (VList [VInt 1; VStr "two"]) = CTree (EProduct exp [(KIdx 1, e)] (VList [VInt 1; VStr "two"]) [] []).
+Proof. vm_compute. split; [reflexivity|]. eexists. eexists. reflexivity. Qed.
